@@ -33,7 +33,7 @@ rm -rf $C.tmp && mkdir -p $C.tmp
 cp $S/mux/simrt/sites_gen.go $C.tmp/sites_gen.go
 # semantic neutrality: the instrumented copy must pass the module's own tests
 if [ "${VERIF_SKIP_NEUTRALITY:-0}" != 1 ]; then
-  (cd $S/mux && go test -count=1 ./... ) > $C.tmp/neutrality.log 2>&1 || { echo "prepare: module's own tests fail on the instrumented copy (see below)" >&2; tail -30 $C.tmp/neutrality.log >&2; rm -rf $C.tmp; exit 2; }
+  (cd $S/mux && go test -vet=off -count=1 ./... ) > $C.tmp/neutrality.log 2>&1 || { echo "prepare: module's own tests fail on the instrumented copy (see below)" >&2; tail -30 $C.tmp/neutrality.log >&2; rm -rf $C.tmp; exit 2; }
 fi
 touch $C.tmp/ok
 rm -rf $C && mv $C.tmp $C
